@@ -17,6 +17,8 @@ import PolyVerif.Lemmas.SolidsMerge
 import PolyVerif.Lemmas.SolidsCode
 import PolyVerif.Lemmas.SolidsLoops
 import PolyVerif.Lemmas.SolidsTopo
+import PolyVerif.Lemmas.SolidsLoopsV
+import PolyVerif.Lemmas.SolidsUmbrella
 import PolyVerif.Gen.CubeTable
 import Mathlib.Tactic
 
@@ -77,6 +79,62 @@ theorem uvSphereUnwelded_copy_map_from_source (rows cols : Nat) :
     Gen.PrimLoops.uvSphereUnwelded.run [rows, cols] Gen.PrimLoops.uvSphereUnwelded.verts =
       (List.range (uvUnweldedNV rows cols)).map (uvUnweldedSrc rows cols) :=
   unwelded_verts_run rows cols
+
+/-! ### vertex positions and supplied normals from the source
+
+The float/vector statements of the same constructors are extracted too (`FE`, `VE`, `fassign vassign vpush vset`) and
+interpreted by `LoopIR.execV`, polymorphically over the scalar.  The equalities below are SYNTACTIC — they hold for every
+`α` with `[Scalar α]`, no field axioms — hence at `ℝ`, where the geometric theorems are proved, and at `Float`, where the
+driver evaluates the model against the implementation: running the model IS running the extracted program. -/
+
+section FromSource
+variable {α : Type} [Scalar α]
+open PolyVerif.LoopIR
+
+/-- `UVSphere`: the extracted positions (pole `(0, r, 0)`, `phi = π(i+1)/rows`, `theta = 2πj/cols`,
+    `(sin φ cos θ, cos φ, sin φ sin θ)·r`, pole `(0, −r, 0)`) are `uvSpherePos`, for every vertex -/
+theorem uvSphere_positions_from_source (radius : α) (rows cols : Nat) (hC : 0 < cols) {v : Nat}
+    (hv : v < uvSphereNV rows cols) :
+    Gen.PrimLoops.uvSphere.positions [rows, cols] [radius] v = uvSpherePos radius rows cols v :=
+  sphere_pos radius rows cols v hC hv
+
+/-- `UVSphere` supplies `vector3.Array(positions).Normalized()` as normals (extracted `nrm = some (positions, true)`) -/
+theorem uvSphere_normals_from_source (radius : α) (rows cols : Nat) (hC : 0 < cols) {v : Nat}
+    (hv : v < uvSphereNV rows cols) :
+    (Gen.PrimLoops.uvSphere.normals [rows, cols] [radius]).map (· v) = some (uvSphereNormal radius rows cols v) := by
+  have h : Gen.PrimLoops.uvSphere.vslice 0 [rows, cols] [radius] v = uvSpherePos radius rows cols v :=
+    sphere_pos radius rows cols v hC hv
+  have hn : Gen.PrimLoops.uvSphere.nrm = some (0, true) := rfl
+  simp only [Prog.normals, hn, Option.map_some, if_true, uvSphereNormal, h]
+
+/-- `Hemisphere.UV`: the extracted positions (cap centre at the origin, `ugh = (−π·i/rows)/2 + π/2`, pole `(0, r, 0)`)
+    are `hemispherePos` -/
+theorem hemisphere_positions_from_source (radius : α) (rows cols : Nat) (hC : 0 < cols) {v : Nat}
+    (hv : v < uvSphereNV rows cols) :
+    Gen.PrimLoops.hemisphere.positions [rows, cols] [radius] v = hemispherePos radius rows cols v :=
+  hemisphere_pos radius rows cols v hC hv
+
+/-- `Circle.ToMesh`: extracted positions = `circlePos`, extracted normals slice = `(0, 1, 0)` everywhere -/
+theorem circle_positions_from_source (radius : α) (sides : Nat) {v : Nat} (hv : v < circleNV sides) :
+    Gen.PrimLoops.circle.positions [sides] [radius] v = circlePos radius sides v ∧
+    (Gen.PrimLoops.circle.normals [sides] [radius]).map (· v) = some circleNormal := by
+  refine ⟨circle_pos radius sides v hv, ?_⟩
+  have h := (circle_nrm radius sides v hv).2
+  have hn : Gen.PrimLoops.circle.nrm = some (1, false) := rfl
+  simp only [Prog.normals, hn, Option.map_some, Bool.false_eq_true, if_false, h, circleNormal]
+
+/-- `Cylinder.ToMesh`, the side vertices before the caps are appended: extracted positions = `cylinderPos`
+    (`(cos a·r, ±H/2, sin a·r)`, `a = (1/sides·2·π)·k`), extracted normals = `cylinderNormal`
+    (`(cos a, ±0.1, sin a).Normalized()`) -/
+theorem cylinderSide_positions_from_source (radius height : α) (sides : Nat) {v : Nat} (hv : v < cylinderSideNV sides) :
+    Gen.PrimLoops.cylinder.positions [sides] [radius, height] v = cylinderPos radius height sides v ∧
+    (Gen.PrimLoops.cylinder.normals [sides] [radius, height]).map (· v) = some (cylinderNormal sides v) := by
+  refine ⟨cylinderSide_pos radius height sides v hv, ?_⟩
+  have h := cylinderSide_nrm radius height sides v hv
+  have hn : Gen.PrimLoops.cylinder.nrm = some (1, false) := rfl
+  simp only [Prog.normals, hn, Option.map_some, Bool.false_eq_true, if_false, h]
+
+end FromSource
 
 /-- the panics: the extracted guards of `UVSphere`, `Hemisphere.UV`, `Circle.ToMesh` are the model's admissibility -/
 theorem guards_from_source (rows cols sides : Nat) :
@@ -179,18 +237,26 @@ theorem uvSphere_connected {rows cols : Nat} (hR : 2 ≤ rows) (hC : 3 ≤ cols)
 example : Relation.ReflTransGen (fun a b => (a, b) ∈ edges (uvSphereTris 4 5)) 0 16 :=
   uvSphere_connected (by decide) (by decide) (by decide)
 
-/-- NOT PROVED for all sizes (kept as the full statement; evaluated by the oracle `c18.holds.manifold` on the
-    implementation's meshes for every size ≤ 24 and sampled beyond): one umbrella per vertex of the welded UV sphere,
-    of the hemisphere, and of the unwelded sphere / capped cylinder modulo their merge maps -/
-def vertexManifold_full : Prop :=
-  (∀ rows cols, 2 ≤ rows → 3 ≤ cols → VertexManifold (uvSphereTris rows cols) ∧ VertexManifold (hemisphereTris rows cols) ∧
-    VertexManifold ((uvSphereUnweldedTris rows cols).map (tmap (uvUnweldedSrc rows cols)))) ∧
-  (∀ sides, 3 ≤ sides → VertexManifold ((cylinderTris sides false false).map (tmap (cylinderPt sides))))
+/-- **one umbrella per vertex, welded UV sphere, ALL sizes**: for every vertex `v` the link edges of `v` (the edges
+    `b → c` such that `(v, b, c)` is, up to rotation, a triangle of the mesh) are exactly the consecutive pairs of ONE
+    duplicate-free cycle of length ≥ 3 — exhibited explicitly: the `cols` ring-1 vertices around a pole, the six (five next
+    to a pole, four when `rows = 2`) grid neighbours around every other vertex -/
+theorem uvSphere_oneUmbrella {rows cols : Nat} (hR : 2 ≤ rows) (hC : 3 ≤ cols) {v : Nat} (hv : v < uvSphereNV rows cols) :
+    UmbrellaCycle (uvSphereTris rows cols) v :=
+  uvSphere_umbrella hR hC hv
 
-/-- instances of the full statement (not a substitute for it) -/
-theorem vertexManifold_partial : VertexManifold (uvSphereTris 2 3) ∧ VertexManifold (uvSphereTris 3 4) ∧
-    VertexManifold (hemisphereTris 3 4) ∧ VertexManifold ((cylinderTris 4 false false).map (tmap (cylinderPt 4))) := by
-  unfold VertexManifold Umbrella; decide +kernel
+/-- one umbrella per vertex, hemisphere, all sizes (reversing every triangle reverses the cycle) -/
+theorem hemisphere_oneUmbrella {rows cols : Nat} (hR : 2 ≤ rows) (hC : 3 ≤ cols) {v : Nat} (hv : v < uvSphereNV rows cols) :
+    UmbrellaCycle (hemisphereTris rows cols) v :=
+  hemisphere_umbrella hR hC hv
+
+/-- one umbrella per merged vertex, unwelded sphere, all sizes (merged, it IS the welded sphere) -/
+theorem uvSphereUnwelded_oneUmbrella_mod_merge {rows cols : Nat} (hR : 2 ≤ rows) (hC : 3 ≤ cols) {v : Nat}
+    (hv : v < uvSphereNV rows cols) :
+    UmbrellaCycle ((uvSphereUnweldedTris rows cols).map (tmap (uvUnweldedSrc rows cols))) v := by
+  rw [uvUnwelded_map_src]; exact uvSphere_umbrella hR hC hv
+
+example : UmbrellaCycle (uvSphereTris 5 7) 12 := uvSphere_oneUmbrella (by decide) (by decide) (by decide)
 
 /-! ## The rotated parts as the code builds them = the exact forms (over ℝ)
 
@@ -213,9 +279,9 @@ theorem cubeQuads_normals_eq_table {v : Nat} (hv : v < cubeQuadsNV) :
 
 /-- the cylinder as the code builds it (bottom cap = circle rotated by `FromTheta(π, (1,0,0))`, then translated)
     is the exact form `cylinderPos` (bottom cap `(x, −h/2, −z)`), for every vertex -/
-theorem cylinder_positions_eq_exact_form (r H : ℝ) (sides v : Nat) :
+theorem cylinder_positions_eq_exact_form (r H : ℝ) (sides : Nat) {v : Nat} (hv : v < cylinderNV sides false false) :
     cylinderPosCode r H sides v = cylinderPos r H sides v :=
-  cylinderPosCode_eq r H sides v
+  cylinderPosCode_eq r H sides hv
 
 /-- … and its bottom-cap normals `(0,1,0)` rotated by the same quaternion are `(0,−1,0)` -/
 theorem cylinder_normals_eq_exact_form (sides v : Nat) :
@@ -253,7 +319,7 @@ theorem uvSphereUnwelded_merge_exact {rows cols : Nat} {r : ℝ} (hr : 0 < r) (h
 theorem cylinder_merge_exact {sides : Nat} {r H : ℝ} (hr : 0 < r) (hH : 0 < H) (hS : 3 ≤ sides)
     {v w : Nat} (hv : v < cylinderNV sides false false) (hw : w < cylinderNV sides false false) :
     cylinderPt sides v = cylinderPt sides w ↔ cylinderPosCode r H sides v = cylinderPosCode r H sides w := by
-  rw [cylinderPosCode_eq, cylinderPosCode_eq]
+  rw [cylinderPosCode_eq r H sides hv, cylinderPosCode_eq r H sides hw]
   exact cylinder_merge_exact_aux hr hH hS hv hw
 
 /-- six-quad box: the corner table identifies two vertices iff the positions the code builds for them coincide -/
@@ -325,14 +391,16 @@ theorem cubeQuads_outward {w h d : ℝ} (hw : 0 < w) (hh : 0 < h) (hd : 0 < d) :
     (Positions as the code builds them: side and top cap as computed by cylinder.go / circle.go, bottom cap = circle
     rotated by the quaternion `FromTheta(π, (1,0,0))` and translated.) -/
 theorem cylinder_outward {sides : Nat} {r H : ℝ} (hr : 0 < r) (hH : 0 < H) (hS : 3 ≤ sides) :
-    OutwardAt (cylinderPosCode r H sides) O3 (cylinderTris sides false false) := by
-  rw [cylinderPosCode_funext]; exact cylinder_outward_aux hr hH hS
+    OutwardAt (cylinderPosCode r H sides) O3 (cylinderTris sides false false) :=
+  outwardAt_congr (cylinder_pos_agree r H (by omega)) (cylinder_outward_aux hr hH hS)
 
 /-- **cylinder normals**: the side normals `(cos a, ±0.1, sin a).Normalized()` and the cap normals `(0, ±1, 0)` have
     positive dot product with the geometric normal of every incident face -/
 theorem cylinder_normals_outward {sides : Nat} {r H : ℝ} (hr : 0 < r) (hH : 0 < H) (hS : 3 ≤ sides) :
     NormalsOutward (cylinderPosCode r H sides) (cylinderNormalCode sides) (cylinderTris sides false false) := by
-  rw [cylinderPosCode_funext, cylinderNormalCode_funext]; exact cylinder_normals_outward_aux hr hH hS
+  rw [cylinderNormalCode_funext]
+  exact normalsOutward_congr (cylinder_pos_agree r H (by omega)) (fun _ _ => ⟨rfl, rfl, rfl⟩)
+    (cylinder_normals_outward_aux hr hH hS)
 
 example : OutwardAt (cylinderPosCode (1 : ℝ) 2 3) O3 (cylinderTris 3 false false) :=
   cylinder_outward (by norm_num) (by norm_num) (by decide)
@@ -378,14 +446,14 @@ theorem cubeQuads_volume (w h d : ℝ) : volume6 (cubeQuadsPosCode w h d) cubeQu
 theorem cylinder_volume {sides : Nat} (r H : ℝ) (hS : 3 ≤ sides) :
     volume6 (cylinderPosCode r H sides) (cylinderTris sides false false) / 6 =
       (sides : ℝ) / 2 * Real.sin (2 * Real.pi / sides) * r ^ 2 * H := by
-  rw [cylinderPosCode_funext, cylinder_volume_aux r H hS]; ring
+  rw [volume6_congr (cylinder_pos_agree r H (by omega)), cylinder_volume_aux r H hS]; ring
 
 /-- … which is at most the analytic volume `π r² H` and approaches it: relative deficit `≤ 2π²/(3·sides²)` -/
 theorem cylinder_volume_bounds {sides : Nat} {r H : ℝ} (hr : 0 < r) (hH : 0 < H) (hS : 3 ≤ sides) :
     volume6 (cylinderPosCode r H sides) (cylinderTris sides false false) / 6 ≤ Real.pi * r ^ 2 * H ∧
     Real.pi * r ^ 2 * H * (1 - 2 * Real.pi ^ 2 / (3 * (sides : ℝ) ^ 2)) ≤
       volume6 (cylinderPosCode r H sides) (cylinderTris sides false false) / 6 := by
-  rw [cylinderPosCode_funext]; exact cylinder_volume_bounds_aux hr hH hS
+  rw [volume6_congr (cylinder_pos_agree r H (by omega))]; exact cylinder_volume_bounds_aux hr hH hS
 
 /-- **UV sphere**: the enclosed volume in closed form, `(cols·r³/3)·sin(2π/cols)·(1 + cos(π/rows))`, for all
     `rows ≥ 2`, `cols ≥ 3` (the stack of regular-`cols`-gon frusta inscribed in the sphere) -/
